@@ -494,6 +494,11 @@ class Run:
         self.cov["distinct_nontrivial"] = len(self._distinct)
         self.cov["known_findings_reproduced"] = {k: v["n"] for k, v in self.known_hits.items()}
         self.cov["correspondence_failures"] = len(self.corr_failures)
+        if self.cov.get("obligations", 0) < 1 or self.cov.get("discharged", 0) < 1:
+            # the theorems were not (all) re-checked on this run (translator failed closed, proof build broken): the run
+            # is reported as a violation; its evidence falls back to the exploration-style keys of the schema
+            self.cov["proof_status"] = {"obligations": self.cov.pop("obligations", 0), "discharged": self.cov.pop("discharged", 0),
+                                        "note": "theorems not re-checked on this run"}
         ev = {
             "property_id": self.pid, "tier": self.tier, "seed": self.seed, "level": self.level,
             "coverage": self.cov, "assumptions": self.assumptions, "wall_s": round(time.time() - self.t0, 2),
